@@ -403,9 +403,12 @@ class GridSearchOutput(AbstractSearchOutput):
     @property
     def id(self) -> str:
         """
-        Use the unique tag of the grid search as an identifier.
+        The identifier the grid search was written under: the name of its folder,
+        which is what its cells record in .parent_identifier and what a grid search
+        written through a database session is stored under. (The unique tag is
+        shared by every grid search of a dataset and may be empty.)
         """
-        return self.unique_tag
+        return Path(self.directory).name
 
 
 class GridSearch:
